@@ -452,6 +452,10 @@ S(id="T.get", props=["C12", "C10"], spec="symtab.spec.c", harness="h_get", mode=
   functions=["symb_get", "term_get", "nonterm_get"], params={"quick": {"CAP": 8}, "thorough": {"CAP": 64}},
   what="element n of the reference array for 0 <= n < count, NULL for every other n (negative, at or beyond the count): no read outside the array; nothing is written "
        "(this is the contract RG.check and the debug listing of RG.tail assume for nonterm_get)")
+S(id="T.find.repr", props=["C12", "C10"], spec="symtab.spec.c", harness="h_find_repr", mode="L", canaries=2, enforce=["symb_find_by_repr/find_repr_real_c"],
+  replace=["find_hash_table_entry/lookup_slot_c"], functions=["symb_find_by_repr"], params={"quick": {"CAP": 8}, "thorough": {"CAP": 64}},
+  what="the lookup by name asks the name table, without reservation, with a key that carries the given name, and answers with the content of the slot the table returns "
+       "(the key lives on the stack of the call: nothing keeps its address); with HT.find / HT.abs.* and T.copy.* this is one half of assumption A7")
 S(id="T.rule.add", props=["C12", "C10"], spec="symtab.spec.c", harness="h_rule_add", mode="L", canaries=2, enforce=["rule_new_symb_add/rule_add_c"],
   replace=["_OS_expand_memory/os_expand_keep_c"], functions=["rule_new_symb_add"], params={"quick": {"CAP": 8, "RCAP": 3}, "thorough": {"CAP": 8, "RCAP": 3}}, mem=32, timeout=1500, tier="thorough",
   bound="the open array holds <= 3 symbols before the call; the function has no loop (thorough tier only: 5 minutes)",
